@@ -3,6 +3,8 @@
  * ASan sees any read beyond the given length. */
 #include "jvtext.h"
 #include "json_tokener.h"
+#include "json_util.h"
+#include <unistd.h>
 const char *DOMAIN = "tok";
 
 static const char *err_name(enum json_tokener_error e)
@@ -106,6 +108,22 @@ void run_case(char *rest)
 			if (!anydoc) putchar('-');
 			printf(" final=%s", last);
 			free(data);
+			break; }
+		case 'D': {
+			/* json_object_from_fd_ex(fd, depth) on the given bytes through a temporary file */
+			char *comma = strchr(tokp, ',');
+			size_t n; unsigned char *b; FILE *f; struct json_object *o; int dreq;
+			if (!comma) { printf("BADOP"); break; }
+			*comma = 0; dreq = atoi(tokp + 1);
+			b = unhex(comma + 1, &n);
+			f = tmpfile();
+			if (!f) { printf("TMPFAIL"); free(b); break; }
+			if (n) fwrite(b, 1, n, f);
+			fflush(f); rewind(f); lseek(fileno(f), 0, SEEK_SET);
+			o = json_object_from_fd_ex(fileno(f), dreq);
+			printf("fd ");
+			if (o) { jv_dump(o); json_object_put(o); } else putchar('-');
+			fclose(f); free(b);
 			break; }
 		case 'R': json_tokener_reset(tok); dead = 0; printf("reset"); break;
 		case 'M': /* fail the k-th allocation from now on, during the next parse only */
